@@ -92,6 +92,10 @@ def enabled(pool, ev):
     if k == "lazy":
         new = None if ev[2] is None else pool[ev[2]]
         return "lazy" in d and d.get("lazy") is not new
+    if k == "del_child":
+        return d.get("child") is not None
+    if k == "del_kids":
+        return len(d.get("kids", ())) >= 1
     if k == "read_lazy":
         return "lazy" not in d
     if k == "read_kids":
@@ -169,6 +173,12 @@ def apply(pool, ev):
     if k == "lazy":
         o.lazy = None if ev[2] is None else pool[ev[2]]
         return ("trait", o, "lazy"), False
+    if k == "del_child":
+        del o.child
+        return ("del", o, "child"), False
+    if k == "del_kids":
+        del o.kids
+        return ("del", o, "kids"), False
     if k == "read_lazy":
         o.lazy
         return ("read", o, "lazy"), False
@@ -292,6 +302,10 @@ def event_menu(names, idx=(0, 1)):
     for i in idx:
         if "child" in names:
             evs += [("child", i, j) for j in allp + [None]]
+        if "del" in names and "child" in names:
+            evs += [("del_child", i)]
+        if "del" in names and "kids" in names:
+            evs += [("del_kids", i)]
         if "lazy" in names:
             evs += [("read_lazy", i)] + [("lazy", i, j) for j in allp + [None]]
         if "kids" in names:
